@@ -92,7 +92,7 @@ def run(ctx: Ctx):
             shape, els = corpus[gi]["shape"], [list(map(float, r)) for r in corpus[gi]["elements"]]
             m = len(els)
         else:
-            m = rng.choice([1, 1, 1, 2, 4])
+            m = rng.choice([1, 1, 1, 2, 3, 3, 4, 5, 6, 6, 7])   # 3 and 6 rows: the array is as long as a row is wide
             shape = rng.choice(["1d", "1xk"]) if m == 1 else "nxk"
             els = [gen_elements(rng) for _ in range(m)]
         case = {"fn": "kepler<->trs", "shape": shape, "elements": els}
@@ -310,6 +310,28 @@ def one_case(ctx, case, shape, els):
         kk = np.asarray(s1.kepler, dtype=float).ravel()
         if kk.shape != (6,) or abs(kk[0] - kback[0][0]) > 1e-9 * kk[0] or any(angdiff(x, y) > 1e-9 / (els[0][1] * math.sin(els[0][2])) for x, y in zip(kk[1:], kback[0][1:])):
             gviolate(ctx, f"shape-consistency:trs.kepler:{sh}", f"trs.kepler of one state given as {sh} is {kk.tolist()} but {kback[0].tolist()} as row of an array", {**case, "as": sh})
+
+
+    # the anomalies belong to the elements the object holds *now*: read, change an element in place, read again
+    for sh in (["1d"] if m == 1 else []) + ["nxk" if m > 1 else "1xk"]:
+        k2 = PosVel(as_shape(els if sh == "nxk" else [els[0]], sh), "kepler")
+        before = [np.asarray(getattr(k2, n_), dtype=float).copy() for n_ in ("M", "f", "trs")]
+        newE = float(els[0][5]) * 0.5 + 0.3
+        if sh == "1d":
+            k2[5] = newE
+        else:
+            k2[0, 5] = newE
+        now = np.array(np.asarray(k2, dtype=float), copy=True)
+        fresh = PosVel(now.copy(), "kepler")
+        for n_ in ("M", "f", "trs"):
+            got, want = np.asarray(getattr(k2, n_), dtype=float), np.asarray(getattr(fresh, n_), dtype=float)
+            if got.shape != want.shape or float(np.max(np.abs(got - want) / np.maximum(1.0, np.abs(want)))) > 1e-12:
+                gviolate(ctx, f"stale-after-element-changed:{n_}:{sh}", f"kepler.{n_} after the eccentric anomaly of the first state was changed in place is "
+                         f"{got.ravel()[:6].tolist()} but an object built from the current elements gives {want.ravel()[:6].tolist()}", {**case, "as": sh, "new_E": newE})
+        e0 = float(now.reshape(-1, 6)[0][1])
+        M0 = float(np.asarray(k2.M, dtype=float).ravel()[0])
+        if abs(M0 - (newE - e0 * math.sin(newE))) > 4e-15 * max(1.0, abs(newE)):
+            gviolate(ctx, "kepler-equation:after-element-changed", f"after E was changed in place to {newE!r}: M = {M0!r} but E - e sin E = {newE - e0 * math.sin(newE)!r}", {**case, "as": sh, "new_E": newE})
 
 
 def replay(payload):
